@@ -791,6 +791,14 @@ func runC06(r *Runner) string {
 		r.Do("sum.pub", []string{eccListStr(keys)}, tag, true, tag)
 	}
 	sumPub(nil, "sumpub-empty")
+	// longer lists (a pool of co-signers): 9 … 17 and 33 keys
+	for _, n := range []int{9, 10, 11, 13, 14, 15, 17, 33} {
+		keys := make([][]byte, n)
+		for j := range keys {
+			keys[j] = ecc.GetPublicKeySchnorr(r.eccScalar(n + j))
+		}
+		sumPub(keys, "sumpub-many")
+	}
 	nSP := r.N(150, 1500)
 	for i := 0; i < nSP; i++ {
 		cnt := 1 + r.rng.Intn(3)
